@@ -189,3 +189,85 @@ def reader_stride(P, FA):
 def header_version_preserved(P, f):
     """does writer f stamp its own version into bytes 72:76 (converters) or carry the source's (copy)?"""
     return None
+
+
+# ---------------------------------------------------------------------------
+# Footer order (C03.5 / C10.3 / C12.3): the reader locates array j of the footer as the j-th stored key of the
+# header-word table, so a writer that is itself a reader of the source file (cropper, re-blocker) must emit the
+# arrays in table order - which is the order of the keys the reader derived at open, not the insertion order of a
+# dictionary that is filled lazily by earlier look-ups (its order is the call history).
+
+def _def_chain(f, e, depth=0, seen=None):
+    """expression nodes that flow into e through single-assignment locals of f (bounded)."""
+    seen = seen if seen is not None else []
+    seen.append(e)
+    if depth > 4:
+        return seen
+    for x in ast.walk(e):
+        if isinstance(x, ast.Name):
+            for d in ast.walk(f.node):
+                if isinstance(d, ast.Assign) and len(d.targets) == 1 and U(d.targets[0]) == x.id and d.value not in seen:
+                    _def_chain(f, d.value, depth + 1, seen)
+    return seen
+
+
+def lazy_memo_attrs(P, cls):
+    """attributes of cls (and bases) initialised empty in a constructor and filled by subscript stores elsewhere."""
+    out = {}
+    for c in cls.mro:
+        for m in c.methods.values():
+            for n in ast.walk(m.node):
+                if isinstance(n, ast.Assign) and isinstance(n.targets[0], ast.Subscript):
+                    t = n.targets[0].value
+                    if isinstance(t, ast.Attribute) and isinstance(t.value, ast.Name) and t.value.id == 'self' \
+                            and m.name != '__init__':
+                        out.setdefault(t.attr, []).append(m)
+    res = {}
+    for attr, ms in out.items():
+        inits = [v for (fn, st, v) in P.attr_stores_mro(cls, attr) if fn.name == '__init__']
+        if inits and all(U(v) in ('{}', 'dict()', 'collections.OrderedDict()', 'OrderedDict()') for v in inits):
+            res[attr] = ms
+    return res
+
+
+def footer_order(P, f, call):
+    """-> (verdict, text); verdict in ok / bad / na / unknown."""
+    if f.cls is None or not any(c.qualname == 'read.SgzReader' for c in f.cls.mro):
+        return 'na', ''
+    loop, n = None, parent(call)
+    while n is not None and n is not f.node:
+        if isinstance(n, ast.For):
+            loop = n
+            break
+        n = parent(n)
+    if loop is None:
+        return 'unknown', 'footer write outside a loop over the stored arrays'
+    it = loop.iter
+    base, via = it, None
+    if isinstance(it, ast.Call) and isinstance(it.func, ast.Attribute) and it.func.attr in ('items', 'values', 'keys') \
+            and not it.args:
+        base, via = it.func.value, it.func.attr
+    if isinstance(it, ast.Call) and U(it.func) == 'sorted':
+        return 'ok', 'iterates sorted(...): ascending header-word order = table order'
+    if not (isinstance(base, ast.Attribute) and isinstance(base.value, ast.Name) and base.value.id == 'self'):
+        return 'unknown', 'footer loop iterates `%s`' % U(it)[:60]
+    attr = base.attr
+    memos = lazy_memo_attrs(P, f.cls)
+    if attr in memos:
+        return 'bad', ('the footer is written in the iteration order of self.%s, a dictionary filled on demand by %s: '
+                       'its order is the order of earlier header look-ups on this object, while the reader locates '
+                       'array j as the j-th stored key of the header-word table' % (
+                           attr, ', '.join(sorted({m.name for m in memos[attr]}))))
+    stores = P.attr_stores_mro(f.cls, attr)
+    if stores and all(fn.name == '__init__' for (fn, st, v) in stores):
+        v = stores[0][2]
+        if isinstance(v, (ast.ListComp, ast.List)) or (isinstance(v, ast.Call) and U(v.func) in ('list', 'sorted')):
+            # the written array must be the one of the loop key
+            tgt = loop.target.id if isinstance(loop.target, ast.Name) else None
+            chain = _def_chain(f, call.args[0])
+            keyed = any(isinstance(x, ast.Subscript) and isinstance(x.slice, ast.Name) and x.slice.id == tgt
+                        for e in chain for x in ast.walk(e))
+            if tgt and keyed:
+                return 'ok', 'iterates self.%s (built once at open, in table order) and writes the array of that key' % attr
+            return 'bad', 'the loop runs over self.%s but the array written is not the one subscripted by the loop key' % attr
+    return 'unknown', 'footer loop iterates self.%s, whose order is not understood' % attr
